@@ -320,6 +320,7 @@ type content struct {
 	Data     []byte
 	Exp      uint64
 	Message  string
+	NoPayer  bool // the gasPayer field is EMPTY on the wire (the accessor then answers the sender)
 }
 
 // wireTx has the RLP layout of types.txdata
@@ -345,13 +346,17 @@ type wireTx struct {
 // tx builds the transaction as it arrives over the wire (RLP), with the given raw signature lists.
 func (c *content) tx(sigs, psigs [][]byte) *types.Transaction {
 	gp := c.GasPayer
+	gpp := &gp
+	if c.NoPayer {
+		gpp = nil
+	}
 	if sigs == nil {
 		sigs = [][]byte{}
 	}
 	if psigs == nil {
 		psigs = [][]byte{}
 	}
-	enc, err := rlp.EncodeToBytes(&wireTx{c.Type, c.Version, c.ChainID, c.From, &gp, c.To, c.ToName, c.GasPrice, c.GasLimit, 0, c.Amount, c.Data, c.Exp, c.Message, sigs, psigs})
+	enc, err := rlp.EncodeToBytes(&wireTx{c.Type, c.Version, c.ChainID, c.From, gpp, c.To, c.ToName, c.GasPrice, c.GasLimit, 0, c.Amount, c.Data, c.Exp, c.Message, sigs, psigs})
 	if err != nil {
 		panic(err)
 	}
@@ -362,7 +367,7 @@ func (c *content) tx(sigs, psigs [][]byte) *types.Transaction {
 	return &out
 }
 
-var allFields = []string{"type", "version", "chainID", "from", "gasPayer", "to", "toName", "gasPrice", "gasLimit", "amount", "data", "expiration", "message"}
+var allFields = []string{"type", "version", "chainID", "from", "gasPayer", "gasPayerEmptied", "to", "toName", "gasPrice", "gasLimit", "amount", "data", "expiration", "message"}
 
 func addrPtrEq(a, b *common.Address) bool {
 	if a == nil || b == nil {
@@ -384,6 +389,7 @@ func diff(a, b *content) []string {
 	add(a.ChainID != b.ChainID, "chainID")
 	add(a.From != b.From, "from")
 	add(a.GasPayer != b.GasPayer, "gasPayer")
+	add(a.NoPayer != b.NoPayer, "gasPayerEmptied")
 	add(!addrPtrEq(a.To, b.To), "to")
 	add(a.ToName != b.ToName, "toName")
 	add(a.GasPrice.Cmp(b.GasPrice) != 0, "gasPrice")
@@ -496,6 +502,10 @@ func (w *world) tamper(o content, cfg, typ, field string) content {
 		default:
 			x.GasPayer = w.P.addr()
 		}
+	case "gasPayerEmptied":
+		// the field is removed from the encoding: whoever reads it through the accessor gets the sender
+		x.NoPayer = true
+		x.GasPayer = o.From
 	case "to":
 		var to common.Address
 		switch typ {
@@ -1341,9 +1351,9 @@ func (w *world) runProcess(b *built, v *verdict, classify bool) {
 	hdr := w.empty.Header.Copy()
 	var tx *types.Transaction
 	if v.packaged {
-		tx = v.block.Txs[0].Clone() // carries the gas used, as in a received block
+		tx = node.CloneTx(v.block.Txs[0]) // carries the gas used, as in a received block
 	} else {
-		tx = b.outer.Clone()
+		tx = node.CloneTx(b.outer)
 	}
 	_, err := proc.Process(hdr, types.Transactions{tx})
 	switch err {
@@ -1364,7 +1374,7 @@ func (w *world) runProcess(b *built, v *verdict, classify bool) {
 	}
 	am2 := account.NewManager(w.head.Hash(), w.f.DB)
 	proc2 := transaction.NewTxProcessor(node.Founder().Addr, node.ChainID, parentLoader{w.f.DB}, am2, w.f.DB, w.f.DM)
-	if e := proc2.VerifyTxBeforeApply(b.tx.Clone()); e != nil {
+	if e := proc2.VerifyTxBeforeApply(node.CloneTx(b.tx)); e != nil {
 		v.verifyErr = e.Error()
 	} else {
 		v.verifyErr = "signatures-accepted"
@@ -1375,7 +1385,7 @@ func (w *world) runProcess(b *built, v *verdict, classify bool) {
 // discarded (TxRoot recomputed, header re-signed).
 func (w *world) handAssembled(tx *types.Transaction) *types.Block {
 	hdr := w.empty.Header.Copy()
-	txs := types.Transactions{tx.Clone()}
+	txs := types.Transactions{node.CloneTx(tx)}
 	hdr.TxRoot = txs.MerkleRootSha()
 	sd := node.SignConfirm(node.Deputy(0), hdr.Hash())
 	hdr.SignData = sd[:]
